@@ -273,6 +273,9 @@ type step struct {
 	// snap: a reader (a query, a data load) takes a kv snapshot (Family.GetSnapshot) and keeps it;
 	// release: the reader with that id closes its snapshot(s). A restart drops every reader.
 	Reader *readerOp `json:"reader,omitempty"`
+	// rollup (one job after the other): the step is the periodic store job (store.compact): a family's
+	// job is started only if the production gate family.needRollup() says so (commit_window_test.go)
+	Periodic bool `json:"periodic,omitempty"`
 	// flush: a rollup job is triggered inside the commit(s) of the flush (commit_window_test.go)
 	RollAt *commitRoll `json:"rollAt,omitempty"`
 }
@@ -448,7 +451,10 @@ func genPlan(t *rapid.T) *plan {
 	}
 	recover()
 	for i := 1; i < nSteps; i++ {
-		switch k := rapid.IntRange(0, 133).Draw(t, "stepKind"); {
+		switch k := rapid.IntRange(0, 139).Draw(t, "stepKind"); {
+		case k >= 134:
+			// the periodic store job with its own gate (threshold of waiting files)
+			p.Steps = append(p.Steps, g.periodicEpisode(mkRollup)...)
 		case k >= 120:
 			// rollup jobs triggered inside the commit of a source flush
 			p.Steps = append(p.Steps, g.commitWindowEpisode(mkRollup)...)
@@ -545,6 +551,7 @@ type stepGen struct {
 	// generated inside a job of that family and no recovery episode has followed yet
 	crashes, faults int
 	crashFam        int
+	periodicNext    bool // the next rollup step is a periodic one
 }
 
 // crash turns a rollup step into one inside which the process dies. The window between the
@@ -936,6 +943,10 @@ func (g *stepGen) rollup(must int) step {
 	if len(s.Families) == 0 && rapid.IntRange(0, 3).Draw(g.t, "force") == 0 {
 		s.Force = true
 	}
+	if !s.Force && (g.periodicNext || rapid.IntRange(0, 7).Draw(g.t, "periodic") == 0) {
+		s.Periodic = true
+	}
+	g.periodicNext = false
 	return s
 }
 
@@ -2273,6 +2284,9 @@ func (e *env) rollup(s step, when string) {
 	} else {
 		ran = nil
 		for _, f := range sel {
+			if s.Periodic && !e.periodicGate(f, when) {
+				continue // the periodic job does not start a rollup job for this family now
+			}
 			theImager.nextJob()
 			// the job takes the files waiting now; files flushed while it runs are not its inputs
 			jobs[f] = e.jobInputs(f)
@@ -2641,7 +2655,7 @@ func (e *env) resolveIDs() *ids {
 
 // decodeBlock reads every value of a metric block with the production reader (the block's own
 // field list is the query, every series of the block is selected).
-func decodeBlock(path string, block []byte, emit func(seriesID uint32, f field.Meta, slot uint16, v float64)) error {
+func decodeBlock(path string, block []byte, emit func(seriesID uint32, f field.Meta, slot uint16, v float64)) (err error) {
 	r, err := metricsdata.NewReader(path, block)
 	if err != nil {
 		return err
@@ -2651,6 +2665,26 @@ func decodeBlock(path string, block []byte, emit func(seriesID uint32, f field.M
 	shardCtx := flow.NewShardExecuteContext(&flow.StorageExecuteContext{Fields: fields})
 	shardCtx.SeriesIDsAfterFiltering.Or(seriesIDs)
 	tr := r.GetTimeRange()
+	// the slot range of the block (what Reader.GetTimeRange reports to queries and to later merges)
+	// is the range of the slots the block stores: a rollup maps the first and the last source slot
+	// of its inputs, a compaction takes the union of its inputs (C03 asserts that a compaction keeps
+	// the range; this is the same for the blocks a rollup job writes)
+	minSlot, maxSlot := -1, -1
+	inner := emit
+	emit = func(seriesID uint32, f field.Meta, slot uint16, v float64) {
+		if minSlot < 0 || int(slot) < minSlot {
+			minSlot = int(slot)
+		}
+		if int(slot) > maxSlot {
+			maxSlot = int(slot)
+		}
+		inner(seriesID, f, slot, v)
+	}
+	defer func() {
+		if err == nil && minSlot >= 0 && (minSlot != int(tr.Start) || maxSlot != int(tr.End)) {
+			err = fmt.Errorf("the block reports the slot range %v, the slots it stores range from %d to %d", tr, minSlot, maxSlot)
+		}
+	}()
 	for idx, hk := range seriesIDs.GetHighKeys() {
 		ctx := &flow.DataLoadContext{
 			ShardExecuteCtx:       shardCtx,
